@@ -16,6 +16,7 @@ package nutsdb
 
 import (
 	"errors"
+	"io"
 	"os"
 	"strings"
 	"time"
@@ -482,6 +483,17 @@ func (tx *Tx) rotateActiveFile() error {
 	var err error
 	fID := tx.db.MaxFileID
 	tx.db.MaxFileID++
+
+	// a transaction whose write or sync failed can have left (part of) an entry behind the write
+	// offset. The log ends at the write offset: wipe what is there, so that it is not taken for a
+	// corrupt entry once this file is no longer the newest one.
+	if off := tx.db.ActiveFile.writeOff; off < tx.db.opt.SegmentSize {
+		if e, rerr := tx.db.ActiveFile.ReadAt(int(off)); e != nil || (rerr != nil && rerr != io.EOF) {
+			if _, err := tx.db.ActiveFile.WriteAt(make([]byte, tx.db.opt.SegmentSize-off), off); err != nil {
+				return err
+			}
+		}
+	}
 
 	if !tx.db.opt.SyncEnable && tx.db.opt.RWMode == MMap {
 		if err := tx.db.ActiveFile.rwManager.Sync(); err != nil {
